@@ -605,10 +605,12 @@ func (x *c06Run) issue(op c06Op) (ok bool) {
 		x.observe(ev)
 	}
 	for _, u := range created {
-		if !u.fgSeen && ctxDoneBefore && u.mr != nil {
-			// the request context was already done: the client refused the delete before it
-			// reached redis. DelCtx returned and the keys are still cached => the removal
-			// failed and retries are owed from now on.
+		if !u.fgSeen && u.mr != nil {
+			// no DEL of this key group reached redis during the foreground call (the request
+			// context was already done and the client refused it, or the implementation stopped
+			// after an earlier key failed). DelCtx has returned and the keys are still cached =>
+			// the removal named by the caller has not happened: it is owed in the background,
+			// on the retry schedule, from now on.
 			still := true
 			for _, k := range u.plan.keys {
 				if !u.mr.Exists(k) {
@@ -620,7 +622,11 @@ func (x *c06Run) issue(op c06Op) (ok bool) {
 				u.plan.seen = 1
 				r.mu.Unlock()
 				u.fgSeen, u.active, u.last = true, true, now
-				x.stats["fg_failed_ctx_done"]++
+				if ctxDoneBefore {
+					x.stats["fg_failed_ctx_done"]++
+				} else {
+					x.stats["fg_delete_not_issued_key_still_cached"]++
+				}
 				continue
 			}
 		}
